@@ -588,6 +588,13 @@ theorem assign_key_spec (σ σ' : State) (t : Loc) (sl : Option Loc) (p q : Path
     | flt _ => cases h
     | arr _ => cases h
 
+/-- `c[i]` through the const `operator[](int)` with `i` outside `[0, length)` (commit 8dbc483): the static `none`, like every
+other const lookup that misses — nothing beyond the elements is read -/
+theorem const_index_beyond_length_is_none (h : Heap) (id i : Nat) (b : Block) (hb : getB h id = .ok b) (hi : b.items.length ≤ i) :
+    stepConst h (.arr id) (.idx i) = .ok .none := by
+  have : b.items[i]? = none := List.getElem?_eq_none hi
+  simp only [stepConst, hb, this]
+
 /-- the typed overload `v == 16777216.0f` for `v = 16777217` (commit cda9080): the driver evaluates every typed numeric
 comparison as `numOf v == some d` (exact values), and these two differ -/
 theorem int_vs_float_literal_exact : numOf (mkInt 16777217) ≠ numOf (mkFloat (Dy.ofInt 16777216)) := by decide
@@ -665,11 +672,11 @@ theorem history_never_touches_freed (n : Nat) (ops : List Op) :
 known findings (growth of a shared block; a target path that moves what the source reference designates) -/
 def Excluded (e : Err) : Prop := e = .sharedGrowth ∨ e = .cyclic ∨ e = .srcMoved
 
-/-- statements outside the domain of the C++ API, for which the LIBRARY HAS NO CHECK (they are undefined behaviour
-there, e.g. a heap-buffer-overflow) and which the model therefore does not execute: a const index `v[i]` with
-`i ≥ length` (`nopath`); `v["k"]` on an array or a scalar, `Var(Type)` for NUMBER/BOOL/INT/FLOAT (uninitialised
-payload), a root variable that does not exist (`badarg`); nesting deeper than the traversal bound (`fuel`).  Negative
-indices and sizes are not expressible (indices are naturals). -/
+/-- statements the model does not execute because the harness cannot issue them or the library has no defined answer:
+a root variable that does not exist, an unknown type tag, the operand of `p = *q + off` / `p = (name i of q)` not being a
+string / an object or `off`, `i` beyond it (`badarg`); nesting deeper than the traversal bound (`fuel`).  `nopath` is no
+longer produced (a const index beyond the length gives `none` since commit 8dbc483; string keys on arrays and scalars and
+`Var(Type)` for every type are executed).  Negative int indices and sizes are not expressible (indices are naturals). -/
 def OutOfDomain (e : Err) : Prop := e = .nopath ∨ e = .badarg ∨ e = .fuel
 
 /-- a history all of whose statements are inside the domain of the API -/
